@@ -63,6 +63,12 @@ def _run_shard(exe, path, tmp, timeout_s, env, per_shard_timeout, dump=False, ex
     return mism, stats, crashes, herr, saves
 
 
+def pick(b, n, seed=1):
+    """deterministic 1-in-n sample by a hash of the behaviour (a stride would select one value of an alternating dimension only)"""
+    import zlib
+    return n <= 1 or zlib.crc32(b.encode() if isinstance(b, str) else repr(b).encode()) % n == seed % n
+
+
 INTERFERE = 4      # decoy worlds kept alive in every second harness process (environment steps, see harness/replay.cc)
 CONTEXT = 6        # behaviours before a failing one that are written into its replay file (they build the decoys)
 
